@@ -260,3 +260,60 @@ class ExecThenLin:
             status.value = status.Status.DONE
         self.discipline.execute(inputs)
         return self.discipline.linearize(inputs)
+
+
+class KwVecFunction:
+    """Picklable `x, scale=1, shift=0 -> [scale * (c0_j + sum_i c_ji x_i + q_j sum_i (i+1) x_i**2) + shift]_j`
+    (real or complex x): a function whose value, slope and curvature depend on keyword arguments that the
+    gradient approximators pass through `f_gradient(x, **kwargs)` / `compute_optimal_step(x, **kwargs)`.
+    Exact on small dyadic inputs.  `sleep`: an evaluation lasts 0, 1 or 2 times this long depending on its
+    point (only biases the completion order)."""
+
+    def __init__(self, coef: list[list[float]], c0: list[float], q: list[float], sleep: float = 0.0) -> None:
+        self.coef = [list(r) for r in coef]
+        self.c0 = list(c0)
+        self.q = list(q)
+        self.sleep = sleep
+
+    def __call__(self, x, scale=1.0, shift=0.0):
+        x = atleast_1d(x)
+        if self.sleep:
+            time.sleep(self.sleep * (int(abs(float(complex(x[0]).real)) * 64) % 3))
+        return array([scale * (c0 + sum(c * v for c, v in zip(row, x)) + q * sum((i + 1) * v * v for i, v in enumerate(x))) + shift
+                      for row, c0, q in zip(self.coef, self.c0, self.q)])
+
+
+class MixAffine(Discipline):
+    """`out_o = b_o + sum_i c_oi * in_i` (elementwise on vectors of one common size) for several inputs and
+    several outputs; Jacobian blocks `c_oi * I`.  `style="requested"`: `_compute_jacobian` computes only the
+    blocks it is asked for (like AnalyticDiscipline); `"full"`: all of them.  `sleep`: duration of `_run` /
+    `_compute_jacobian` (only biases the completion order)."""
+
+    def __init__(self, name: str, ins: list[str], outs: dict[str, tuple[dict[str, float], float]], size: int = 1,
+                 style: str = "requested", sleep: float = 0.0, counter: Any = None) -> None:
+        super().__init__(name=name)
+        self.io.input_grammar.update_from_names(list(ins))
+        self.io.output_grammar.update_from_names(list(outs))
+        for i in ins:
+            self.io.input_grammar.defaults[i] = array([0.0] * size)
+        self.ins = list(ins)
+        self.outs = {o: (dict(c), b) for o, (c, b) in outs.items()}
+        self.size = size
+        self.style = style
+        self.sleep = sleep
+        self.counter = counter
+
+    def _run(self, input_data):
+        if self.counter is not None:
+            with self.counter.get_lock():
+                self.counter.value += 1
+        if self.sleep:
+            time.sleep(self.sleep)
+        return {o: b + sum(c.get(i, 0.0) * input_data[i] for i in self.ins) for o, (c, b) in self.outs.items()}
+
+    def _compute_jacobian(self, input_names=(), output_names=()):
+        if self.sleep:
+            time.sleep(self.sleep)
+        ins = [i for i in self.ins if self.style == "full" or not input_names or i in input_names]
+        outs = [o for o in self.outs if self.style == "full" or not output_names or o in output_names]
+        self.jac = {o: {i: self.outs[o][0].get(i, 0.0) * eye(self.size) for i in ins} for o in outs}
